@@ -11,6 +11,7 @@
   * a call that fails changes neither the handle table nor any login state: where such a call is placed among the others cannot matter for them.
 -/
 import Shm.Props.C03
+import Shm.Model.MutexLife
 import Shm.Lemmas.StepInv
 import Shm.Lemmas.Commute
 namespace Shm.C18
@@ -52,5 +53,13 @@ example : (OpCall.cryptUpdate true 1 (some 16) (some 16) { rv := 0, len := 16, d
 
 /-- non-vacuity: two sessions opened one after the other get different handles -/
 example : ((run {} [.initLib]).WF) := wf_run {} _ wf_init
+
+/-- **Locking asked for is locking switched on**: whatever came before in the process - a C_Initialize(NULL) that switched the mutex factory off, failed attempts, C_Finalize - a
+    C_Initialize with CKF_OS_LOCKING_OK or with mutex callbacks answers CKR_OK with the factory switched ON (model `mxTrace`, tied to `MutexFactory::enabled` by `purefn mxseq`) -/
+theorem C18_locking_requested_is_enabled (c : Char) (r : List Char) (en : Bool) (hc : c = 'o' ∨ c = 'a') :
+    (Shm.MutexLife.mxTrace (c :: r) false en).head? = some (.ini 0 true) := Shm.MutexLife.init_with_locking_enables c r en hc
+
+/-- non-vacuity / the history of the seeded change: no locking, finalize, OS locking -/
+example : Shm.MutexLife.mxTrace "nfo".toList false true = [.ini 0 false, .fin 0, .ini 0 true] := by decide
 
 end Shm.C18
